@@ -312,6 +312,10 @@ func c16Check(c *C16Case) (ds []ev.Discrepancy, nontrivial bool) {
 		if ns == nil {
 			ns = newNameSet()
 		}
+	case "none":
+		// the cursor stands inside something that is no name (a directive keyword, a transaction
+		// code): whatever is offered there, accepting it must not overwrite what stands before the cursor
+		ns = newNameSet()
 	}
 	f := c.Sit.Fragment
 	lineText := c.Sit.Before + f + c.Sit.After
@@ -334,6 +338,9 @@ func c16Check(c *C16Case) (ds []ev.Discrepancy, nontrivial bool) {
 	}
 	// (sound)
 	for _, it := range items {
+		if c.Sit.Kind == "none" {
+			break
+		}
 		if it.Label == f || (c.Sit.Kind == "payee" && it.Label == "typing") || (c.Sit.Header != "" && it.Label == "typing") || (c.Sit.Kind == "commodity" && it.Label == "ZZZ") {
 			continue // what the user typed on this line exists in the document too
 		}
@@ -615,6 +622,33 @@ func genC16(t *rapid.T, p *gen.Profile) *C16Case {
 		s.Fragment = genFragment(t, pick(t, vs, "v", "name"))
 		if strings.ContainsAny(s.Fragment, ":,") {
 			s.Fragment = ""
+		}
+	}
+	if !p.Off("c16.no-name-places") && rapid.IntRange(0, 9).Draw(t, "noname") == 0 {
+		// inside a directive keyword or a transaction code
+		sym := pick(t, names.commodities.all, "EUR", "nsym")
+		if strings.ContainsAny(sym, " \"") {
+			sym = "EUR"
+		}
+		acct := pick(t, names.accounts.all, "assets:cash", "nacct")
+		payee := pick(t, names.payees.all, "shop", "npayee")
+		type place struct{ before, after string }
+		pl := rapid.SampledFrom([]place{
+			{"c", "ommodity " + sym}, {"comm", "odity " + sym}, {"D", " 1,000.00 " + sym}, {"acc", "ount " + acct}, {"accoun", "t " + acct},
+			{"2024-06-02 * (c", "1) " + payee}, {"2024-06-02 (", "7) " + payee}, {"2024-06-02 ! (ab", ") " + payee},
+		}).Draw(t, "nplace")
+		s = C16Sit{Kind: "none", Before: pl.before, After: pl.after}
+	} else if !p.Off("c16.commodity.before-number") && rapid.IntRange(0, 9).Draw(t, "beforenum") == 0 {
+		// the commodity on the left of a number that is already there: USD|12.50
+		sym := pick(t, names.commodities.all, "EUR", "bsym")
+		if !strings.ContainsAny(sym, " \".:,") {
+			frag := genFragment(t, sym)
+			if i := strings.IndexAny(frag, ":,."); i >= 0 {
+				frag = frag[:i]
+			}
+			if frag != "" {
+				s = C16Sit{Kind: "commodity", Header: header, Before: indent + pick(t, names.accounts.all, "assets:cash", "bacct") + "  ", Fragment: frag, After: rapid.SampledFrom([]string{"12.50", "5", "1,000.00 = 3"}).Draw(t, "bnum")}
+			}
 		}
 	}
 	if c.Max >= 50 && !p.Off("c16.bulk") && rapid.IntRange(0, 3).Draw(t, "bulk") == 0 {
